@@ -33,7 +33,24 @@ def chain(depth, form, stages):
         elif form == "diamond_value":
             body = "return u.x;" if i == 0 else "return h%d() + h%d();" % (i - 1, i - 1)
             out.append("fn h%d() -> f32 { %s }" % (i, body))
-    call = ("_ = h%d();" if form in ("value", "diamond_value") else "h%d();") % (depth - 1) if depth else "_ = u.x;"
+        elif form == "pure_diamond":
+            # helpers that touch no binding at all (pure math), shared through two call sites per level
+            body = "return x * 0.5;" if i == 0 else "return h%d(x) + h%d(x + 1.0);" % (i - 1, i - 1)
+            out.append("fn h%d(x: f32) -> f32 { %s }" % (i, body))
+        elif form == "split_diamond":
+            # sharing through two distinct intermediate functions per level
+            if i == 0:
+                out.append("fn h0() -> f32 { return 1.0; }")
+            else:
+                out.append("fn l%d() -> f32 { return h%d(); }" % (i, i - 1))
+                out.append("fn r%d() -> f32 { return h%d() * 2.0; }" % (i, i - 1))
+                out.append("fn h%d() -> f32 { return l%d() + r%d(); }" % (i, i, i))
+    if form == "pure_diamond":
+        call = ("_ = h%d(u.x);" % (depth - 1)) if depth else "_ = u.x;"
+    elif form == "split_diamond":
+        call = ("_ = h%d() + u.x;" % (depth - 1)) if depth else "_ = u.x;"
+    else:
+        call = ("_ = h%d();" if form in ("value", "diamond_value") else "h%d();") % (depth - 1) if depth else "_ = u.x;"
     for k, st in enumerate(stages):
         if st == "vertex":
             out.append("@vertex fn e%d() -> @builtin(position) vec4<f32> { %s return vec4<f32>(0.0); }" % (k, call))
@@ -96,7 +113,7 @@ def mk(wgsl, family, depth):
 
 def stages(rng, tier):
     s1, s2 = [], []
-    forms = ["value", "stmt", "diamond", "diamond_value"]
+    forms = ["value", "stmt", "diamond", "diamond_value", "pure_diamond", "split_diamond"]
     for d in [1, 2, 3, 4, 6, 8, 10, 12, 14, 16]:
         for f in forms:
             s1.append(mk(chain(d, f, rng.choice([["compute"], ["vertex", "fragment"], ["fragment", "fragment", "compute"]])), "chain_" + f, d))
